@@ -110,7 +110,7 @@ func (msg *Request) IsCall() bool { return msg.ID.IsValid() }
 
 func (msg *Request) marshal(to *wireCombined) {
 	to.ID = msg.ID.value
-	to.Method = msg.Method
+	to.Method = &msg.Method
 	to.Params = msg.Params
 }
 
